@@ -46,7 +46,7 @@ func (readSched) Meta() core.EngineMeta {
 		Stub:       []string{"refts reference multiplexer and 188+k re-framer", "SimReader (short reads per plan)"},
 		FaultKinds: []string{"short-read", "one-byte-reads", "boundary-in-first-400", "eof-with-data", "kind-bufio", "kind-plain", "auto-detect", "frame-188+k"},
 		Assumptions: []string{
-			"auto-detection needs at least two packets and, for sizes above 188, no 0x47 among bytes 188..size-1 of the stream (inherent to the heuristic); bufio buffers are at least 256 bytes",
+			"auto-detection needs at least two packets and, for sizes above 188, no 0x47 among bytes 188..size-1 of the stream (inherent to the heuristic); bufio buffers are at least 256 bytes when the size is auto-detected (the detection peeks at 193 bytes) and at least 16 bytes otherwise",
 		},
 		Levels: map[string]string{"C08": "exploration"},
 	}
@@ -75,7 +75,8 @@ func genVariantPlan(r *core.PRNG, kind string) world.ReaderPlan {
 	}
 	p.EOFWithData = r.Chance(1, 3)
 	if kind == "bufio" {
-		p.BufioSize = []int{256, 257, 512, 4096, 1 << 16}[r.Intn(5)]
+		// (buffers smaller than the 193-byte detection window are used with an explicit size only)
+		p.BufioSize = []int{256, 257, 512, 4096, 1 << 16, 16, 100, 187, 190}[r.Intn(9)]
 	}
 	return p
 }
@@ -208,7 +209,7 @@ func (readSched) Execute(scAny any, keepLog bool) *core.Outcome {
 		if auto && (npk < 2 || v.K > 4) {
 			auto = false // scope of the heuristic
 		}
-		if v.Reader.Kind == "bufio" && v.Reader.BufioSize < 256 {
+		if v.Reader.Kind == "bufio" && v.Reader.BufioSize < 256 && (auto || v.Reader.BufioSize < 16) {
 			v.Reader.BufioSize = 256
 		}
 		data := reframe(b.Packets, v.K)
